@@ -671,8 +671,13 @@ fn shl(a: Fr, b: Fr) -> Fr {
     }
 
     let n = b.into_bigint().0[0] as u32;
-    let a = a.into_bigint();
-    Fr::from_bigint(a << n).unwrap()
+    // keep the low 254 bits of the shifted value and reduce it modulo p
+    let mut a = a.into_bigint() << n;
+    a.0[3] &= u64::MAX >> 2;
+    if a >= Fr::MODULUS {
+        a.sub_with_borrow(&Fr::MODULUS);
+    }
+    Fr::from_bigint(a).unwrap()
 }
 
 fn shr(a: Fr, b: Fr) -> Fr {
